@@ -3,7 +3,7 @@
 import json, os, re
 V = os.path.dirname(os.path.dirname(os.path.abspath(__file__)))
 res = json.load(open(os.path.join(V, "seeded", "RESULTS_quick.json")))
-allp = os.path.join(V, "seeded", "RESULTS_quick_all.json")
+allp = os.path.join(V, "seeded", "RESULTS_quick_related.json")
 resall = json.load(open(allp)) if os.path.exists(allp) else {}
 notes = json.load(open(os.path.join(V, "seeded", "NOTES.json")))
 print("| change | property | what it breaks (file: mechanism) | needs | caught by (quick tier) | first alarm | remarks |")
